@@ -104,13 +104,22 @@ def check_scan(case) -> Outcome:
         w = _where(e)
         v = _verdicts.get(w)
         if v is None:
-            v = hang_verdict(data, depth)
+            v = hang_verdict(data, depth, hard_cap_s=120)
             if v.get("verdict") in ("budget", "cap", "memory"):
                 _verdicts[w] = v
         if v.get("verdict") == "budget":
             o.violate("hang@" + _site(v.get("where") or w), v)
         elif v.get("verdict") == "cap":
-            o.label("inconclusive:wall-cap@" + _site(w))  # a time budget hit is inconclusive, never a violation
+            # few line events but no return: the time goes into C code (e.g. regex backtracking). Second opinion: CPU time
+            # consumed by a fresh interpreter (not wall-clock); normal scans of such inputs take milliseconds
+            from ..observe import cpu_budget_verdict
+
+            v2 = _verdicts.get(("cpu", w)) or cpu_budget_verdict(data, depth)
+            if v2.get("verdict") == "cpu-budget":
+                _verdicts[("cpu", w)] = v2
+                o.violate("hang:cpu-budget@" + _site(v2.get("where") if v2.get("where", "?") != "?" else w), v2)
+            else:
+                o.label("inconclusive:wall-cap@" + _site(w))
         elif v.get("verdict") == "memory":
             o.violate("blowup@" + _site(v.get("where") or w), v)
         else:
